@@ -36,6 +36,82 @@ type HTTPCase struct {
 	ErrStyle string    `json:"err_style,omitempty"` // how the storage words its own refusals (vkit.StorePolicy.ErrStyle)
 	Repeat   int       `json:"repeat,omitempty"`    // the same request is served this many more times by the same instance (replayed codes / rotated tokens / second polls)
 	Tags     []string  `json:"tags,omitempty"`      // generator's description of the material combination (labels only)
+	Faults   []HFault  `json:"faults,omitempty"`    // storage faults in force while the request under test is served (not during the preparation flows)
+}
+
+// HFault is one injected storage failure: the Call-th storage call the request makes (0: any) and / or every call of Method
+// ("" any) fails in the way Kind says (vkit.Fault kinds).
+type HFault struct {
+	Call   int    `json:"call,omitempty"`
+	Method string `json:"method,omitempty"`
+	Kind   string `json:"kind"`
+}
+
+var faultKinds = []string{"error", "deadline", "partial", "oidc", "oidc-wrapped"}
+
+// storage methods the handlers call (vkit.Store journal names)
+var faultMethods = []string{
+	"AuthRequestByCode", "AuthRequestByID", "AuthorizeClientIDSecret", "ClientCredentials", "ClientCredentialsTokenRequest", "CreateAccessAndRefreshTokens", "CreateAccessToken", "CreateAuthRequest",
+	"CreateTokenExchangeRequest", "DeleteAuthRequest", "GetClientByClientID", "GetDeviceAuthorizatonState", "GetKeyByIDAndClientID", "GetPrivateClaimsFromRequest", "GetPrivateClaimsFromScopes",
+	"GetPrivateClaimsFromTokenExchangeRequest", "GetRefreshTokenInfo", "Health", "JWTProfileTokenType", "KeySet", "RevokeToken", "SaveAuthCode", "SetIntrospectionFromToken", "SetUserinfoFromRequest",
+	"SetUserinfoFromScopes", "SetUserinfoFromToken", "SetUserinfoFromTokenExchangeRequest", "SignatureAlgorithms", "SigningKey", "StoreDeviceAuthorization", "TerminateSession", "TerminateSessionFromRequest",
+	"TokenRequestByRefreshToken", "ValidateJWTProfileScopes", "ValidateTokenExchangeRequest", "VerifyExchangeToken",
+}
+
+// scenarioMethods: the storage calls a correct request of the scenario typically makes (aim for the by-method faults; the
+// positional faults need no such knowledge)
+func scenarioMethods(sc string) []string {
+	switch {
+	case sc == "token:code" || sc == "token:code-native":
+		return []string{"AuthRequestByCode", "GetClientByClientID", "AuthorizeClientIDSecret", "CreateAccessAndRefreshTokens", "CreateAccessToken", "SigningKey", "DeleteAuthRequest", "SetUserinfoFromScopes", "GetPrivateClaimsFromScopes"}
+	case sc == "token:refresh":
+		return []string{"TokenRequestByRefreshToken", "GetClientByClientID", "AuthorizeClientIDSecret", "CreateAccessAndRefreshTokens", "SigningKey", "SetUserinfoFromScopes"}
+	case sc == "token:cc":
+		return []string{"ClientCredentials", "ClientCredentialsTokenRequest", "CreateAccessToken", "SigningKey"}
+	case sc == "token:bearer":
+		return []string{"GetKeyByIDAndClientID", "ValidateJWTProfileScopes", "JWTProfileTokenType", "CreateAccessToken", "SigningKey"}
+	case sc == "token:exchange":
+		return []string{"GetClientByClientID", "AuthorizeClientIDSecret", "ValidateTokenExchangeRequest", "CreateTokenExchangeRequest", "VerifyExchangeToken", "CreateAccessToken", "CreateAccessAndRefreshTokens", "KeySet", "GetPrivateClaimsFromTokenExchangeRequest", "SetUserinfoFromTokenExchangeRequest"}
+	case sc == "token:device":
+		return []string{"GetClientByClientID", "AuthorizeClientIDSecret", "GetDeviceAuthorizatonState", "CreateAccessAndRefreshTokens", "CreateAccessToken", "SigningKey"}
+	case strings.HasPrefix(sc, "authorize"):
+		return []string{"GetClientByClientID", "CreateAuthRequest", "KeySet", "GetKeyByIDAndClientID"}
+	case sc == "callback":
+		return []string{"AuthRequestByID", "GetClientByClientID", "SaveAuthCode", "CreateAccessToken", "SigningKey", "DeleteAuthRequest"}
+	case strings.HasPrefix(sc, "userinfo"):
+		return []string{"KeySet", "SetUserinfoFromToken"}
+	case sc == "introspect":
+		return []string{"AuthorizeClientIDSecret", "GetKeyByIDAndClientID", "KeySet", "SetIntrospectionFromToken", "GetClientByClientID"}
+	case sc == "revoke":
+		return []string{"AuthorizeClientIDSecret", "GetClientByClientID", "GetKeyByIDAndClientID", "GetRefreshTokenInfo", "KeySet", "RevokeToken"}
+	case sc == "end_session":
+		return []string{"KeySet", "GetClientByClientID", "TerminateSession", "TerminateSessionFromRequest"}
+	case sc == "device_authorization":
+		return []string{"GetClientByClientID", "AuthorizeClientIDSecret", "StoreDeviceAuthorization"}
+	case sc == "discovery":
+		return []string{"SignatureAlgorithms"}
+	case sc == "keys":
+		return []string{"KeySet"}
+	case sc == "healthz" || sc == "ready":
+		return []string{"Health"}
+	}
+	return faultMethods
+}
+
+// genFaults: in every second case one storage fault: at the k-th storage call of the request (3/4) or at every call of one method (1/4).
+func genFaults(t *rapid.T, sc string) []HFault {
+	if rapid.Bool().Draw(t, "faulty") {
+		return nil
+	}
+	f := HFault{Kind: rapid.SampledFrom(faultKinds).Draw(t, "fkind")}
+	if rapid.IntRange(0, 3).Draw(t, "fby") > 0 {
+		f.Call = rapid.SampledFrom([]int{1, 2, 2, 2, 3, 3, 3, 4, 4, 5, 6, 7, 8, 10}).Draw(t, "fcall")
+	} else if rapid.IntRange(0, 3).Draw(t, "fmany") > 0 {
+		f.Method = rapid.SampledFrom(scenarioMethods(sc)).Draw(t, "fmethod")
+	} else {
+		f.Method = rapid.SampledFrom(faultMethods).Draw(t, "fmethod-any")
+	}
+	return []HFault{f}
 }
 
 const (
@@ -439,6 +515,7 @@ func genHTTPCase(t *rapid.T) HTTPCase {
 	c.Scenario = rapid.SampledFrom(httpScenarios).Draw(t, "scenario")
 	p, dflt, tags := genScenario(t, c.Scenario)
 	c.Tags = tags
+	c.Faults = genFaults(t, c.Scenario)
 	needsCred := strings.HasPrefix(c.Scenario, "token:") || c.Scenario == "introspect" || c.Scenario == "revoke" || c.Scenario == "device_authorization"
 	if needsCred || rapid.IntRange(0, 9).Draw(t, "credany") >= 8 {
 		cr := genCred(t, "cred", dflt)
@@ -904,6 +981,14 @@ func runHTTP(c HTTPCase, res *vkit.Result, h string) {
 	var r *vkit.Resp
 	errorAnswer := false
 	statuses := ""
+	var faults []vkit.Fault
+	for i, f := range c.Faults {
+		if i >= 4 || !contains(faultKinds, f.Kind) || f.Call < 0 {
+			continue
+		}
+		faults = append(faults, vkit.Fault{Call: f.Call, Method: f.Method, Kind: f.Kind})
+	}
+	faultHit := false
 	for rep := 0; rep <= repeat; rep++ {
 		if rep > 0 {
 			var err error
@@ -913,8 +998,15 @@ func runHTTP(c HTTPCase, res *vkit.Result, h string) {
 			req.RemoteAddr = "192.0.2.1:1234"
 			method = fmt.Sprintf("[repetition %d] %s", rep, c.Method)
 		}
+		st.SetFaults(faults...)
 		r = vkit.Serve(handler, st, req)
+		st.SetFaults()
 		statuses += fmt.Sprintf("%d ", r.Status)
+		for _, je := range st.CallsOf(r.Req) {
+			if je.Fault {
+				faultHit = true
+			}
+		}
 
 		if r.Panic != nil {
 			res.Fail(panicFP(r.Stack), "%s %s -> panic: %v (response already started: %v, status %d)\n%s", method, clip(target, 200), r.Panic, r.JournalAtWrite >= 0, r.Status,
@@ -969,6 +1061,22 @@ func runHTTP(c HTTPCase, res *vkit.Result, h string) {
 	}
 	if c.ErrStyle != "" {
 		res.Label("http-errstyle:" + errStyleOf(c.ErrStyle))
+	}
+	for _, f := range faults {
+		by := "call"
+		if f.Method != "" {
+			by = "method"
+		}
+		res.Label("http-fault:"+f.Kind, "http-fault-by:"+by, fmt.Sprintf("http-fault-hit:%v", faultHit))
+		if faultHit {
+			for _, je := range st.CallsOf(r.Req) {
+				if je.Fault {
+					res.Label("http-fault-at:" + je.Method)
+					break
+				}
+			}
+			res.Label(fmt.Sprintf("http-fault-out:%s:%dxx", strings.SplitN(where, ":", 2)[0], r.Status/100))
+		}
 	}
 
 	out := fmt.Sprintf("%dxx", r.Status/100)
